@@ -188,6 +188,17 @@ def dao_order(prog: Program) -> RuleResult:
             "the memoised object itself is initialised (identity kept)", "the object handed out through the memo is not the one that gets initialised")
     r.check(bool(fixes) and bool(init) and cfg.dominates(init[0].id, fixes[0].id), "DataAccessObject.from_dao#fixes-after-init", site(g), "", "circular references are patched after initialisation",
             "circular fix-ups do not follow initialisation")
+    # an alternatively mapped object is first memoised as its *mapping* instance and only replaced by the created domain object at
+    # the end: whoever read the memo in between (a back reference on a cycle through it) holds the mapping instance and must be patched
+    created = [n for n in cfg.nodes if isinstance(n.stmt, ast.Assign) and any(call_name(c) == "create_from_dao" for c in calls_in(n.stmt))]
+    if created:
+        cn = created[0]
+        later = cfg.reachable(cn.id) - {cn.id}
+        patched = any(call_name(c) in ("_apply_circular_fixes", "patch_references", "replace_references", "_replace_in_dependents") for i in later if cfg.nodes[i].stmt is not None for c in calls_in(cfg.nodes[i].stmt))
+        r.check(patched, "DataAccessObject.from_dao#alternative-mapping-in-cycle", site(g, cn.stmt), src(cn.stmt),
+                "objects that captured the in-progress mapping instance are re-pointed to the created object",
+                "the domain object of an alternatively mapped DAO is created after its relationships were converted, and nothing re-points the objects that meanwhile received the in-progress "
+                "mapping instance from the memo: on a cycle entered through the alternatively mapped object the back reference ends up as the mapping instance, not the object")
     st = prog.cls(DAO + ".FromDAOState")
     am = prog.method(st.qual, "allocate_and_memoize", inherited=False)
     news = [c for c in calls_in(am.node) if call_name(c) == "__new__"]
@@ -324,6 +335,71 @@ def dao_collect(prog: Program) -> RuleResult:
     return r
 
 
+def dao_value_truth(prog: Program) -> RuleResult:
+    """A field value read during conversion (getattr(x, <name that varies>)) is data: '', 0, False and [] are legal values. Its truth must
+    not decide whether it is kept (`if value:`, `a and (v := getattr(...))`, `[.. for .. if getattr(...)]`); tests for None / identity
+    and exception handling are the accepted ways to ask whether a value is there."""
+    r = RuleResult("DAO-VALUE-TRUTH", "no field value is kept or dropped according to its truth", floor=3)
+    mod = prog.module(DAO)
+    n_reads = 0
+    for f in sorted([f for f in prog.functions.values() if f.module is mod and f.cls is not None], key=lambda x: x.qual):
+        # names that vary: loop / comprehension targets
+        varying = set()
+        for x in walk_local(f.node):
+            tg = x.target if isinstance(x, (ast.For, ast.comprehension)) else None
+            if tg is not None:
+                varying |= {y.id for y in ast.walk(tg) if isinstance(y, ast.Name)}
+        reads = [c for c in [x for x in walk_local(f.node) if isinstance(x, ast.Call)] if isinstance(c.func, ast.Name) and c.func.id == "getattr" and len(c.args) >= 2
+                 and any(isinstance(y, ast.Name) and y.id in varying for y in ast.walk(c.args[1]))]
+        if not reads:
+            continue
+        # locals bound to such a read
+        bound = {}
+        for x in walk_local(f.node):
+            if isinstance(x, ast.Assign) and len(x.targets) == 1 and isinstance(x.targets[0], ast.Name) and any(x.value is c for c in reads):
+                bound[x.targets[0].id] = x.value
+            if isinstance(x, ast.NamedExpr) and isinstance(x.target, ast.Name) and any(x.value is c for c in reads):
+                bound[x.target.id] = x.value
+
+        def is_value(e) -> bool:
+            return any(e is c for c in reads) or (isinstance(e, ast.NamedExpr) and is_value(e.value)) or (isinstance(e, ast.Name) and e.id in bound)
+
+        def truth_positions(fn_node):
+            for x in walk_local(fn_node):
+                if isinstance(x, (ast.If, ast.While, ast.IfExp)):
+                    yield x.test
+                if isinstance(x, ast.Assert):
+                    yield x.test
+                if isinstance(x, ast.comprehension):
+                    yield from x.ifs
+                if isinstance(x, ast.BoolOp):
+                    yield from x.values
+                if isinstance(x, ast.UnaryOp) and isinstance(x.op, ast.Not):
+                    yield x.operand
+                if isinstance(x, ast.Call) and isinstance(x.func, ast.Name) and x.func.id in ("bool", "any", "all", "filter") and x.args:
+                    yield x.args[-1] if x.func.id == "filter" else x.args[0]
+
+        bad = None
+        for t in truth_positions(f.node):
+            todo = [t]
+            while todo:
+                y = todo.pop()
+                if isinstance(y, ast.BoolOp):
+                    todo += y.values
+                elif isinstance(y, ast.UnaryOp) and isinstance(y.op, ast.Not):
+                    todo.append(y.operand)
+                elif is_value(y):
+                    bad = bad or y
+        n_reads += len(reads)
+        r.check(bad is None, f"{f.short}#values-not-truth-tested", site(f, reads[0]), f"{len(reads)} dynamic field reads",
+                "field values are only stored, passed on or tested against None",
+                f"the field value {src(bad)[:60] if bad is not None else ''} is used as a condition: a legal falsy value ('', 0, False, an empty collection) is treated as absent "
+                f"and the reconstructed object lacks the field or gets a default")
+    if n_reads < 3:
+        raise AnalysisError(f"DAO-VALUE-TRUTH: only {n_reads} dynamic field reads found in dao.py")
+    return r
+
+
 def dao_window(prog: Program) -> RuleResult:
     """An entry that is taken out of the conversion memo for a moment must be back before the conversion descends into related objects."""
     from ..callgraph import self_closure
@@ -383,4 +459,4 @@ def dao_window(prog: Program) -> RuleResult:
 
 
 def run(prog: Program, tier: str) -> List[RuleResult]:
-    return [idkey(prog), dao_order(prog), dao_direction(prog), dao_collect(prog), dao_window(prog)]
+    return [idkey(prog), dao_order(prog), dao_direction(prog), dao_collect(prog), dao_window(prog), dao_value_truth(prog)]
